@@ -3,6 +3,7 @@ from __future__ import annotations
 
 import ast
 import itertools
+import re
 
 from ..errors import AnalysisError
 from ..model import src, walk_local, docstring_free
@@ -129,6 +130,10 @@ def r2_visitors(ctx):
             want.append(f'self.seen_encodings.append({nd}.token.encoding)')
         if sorted(apps) != sorted(want):
             bad.append((''.join('T' if b else 'F' for b in bits), apps))
+    hooks = [a for a in unknown if re.match(r'^(not )?self\.\w+\(', a)]
+    if hooks:
+        # the decision is delegated to a method of the visitor that sub-classes override: dynamic dispatch is not followed
+        raise AnalysisError(f'{tv.loc}: TokensTraversal.visit decides through the overridable hook `{hooks[0][:60]}`: not followed')
     ctx.check(not bad and not unknown, 'R2', tv.loc, tv.qualname, 'tokens-visitor-truth-table',
               'TokensTraversal.visit lists node.token iff `token and (not unique or encoding not seen) and category in filter`, and '
               'records the encoding exactly when unique (32 valuations)',
@@ -151,6 +156,8 @@ def r2_visitors(ctx):
         fm = sp.condition()
         ats = G.atoms_of(fm)
         a = f'isinstance({nd}.token, MetacommentToken)'
+        if any(re.match(r'^(not )?self\.\w+\(', x) for x in ats):
+            raise AnalysisError(f'{mv.loc}: MetacommentsTraversal.visit decides through an overridable hook: not followed')
         if ats and ats != [a]:
             okm = False
             continue
@@ -272,6 +279,8 @@ def r3_siblings(ctx):
     pu, fu = _query_fact(ctx, gu)
     want = lambda p, flag: [('True', (f'self.tree.dfs_iterative(TokensTraversal({flag}, TokenCategory.valid(include={p})))',),
                              f'TokensTraversal({flag}, TokenCategory.valid(include={p})).tokens')]
+    if not (fa and all(any('dfs_iterative(TokensTraversal(' in c_ for c_ in x[1]) for x in fa if x[2] is not None)):
+        raise AnalysisError(f'{ga.loc}: get_all_tokens does not build a TokensTraversal itself (a factory / another visitor): not followed')
     ctx.check(fa == want(pa, 'False'), 'R3', ga.loc, ga.qualname, 'all-tokens-shape',
               'get_all_tokens = tokens of a depth-first traversal with TokensTraversal(False, valid(include=filter))',
               f'get_all_tokens is {fa}')
